@@ -54,7 +54,6 @@ TOTAL = {
     "std::io::Write::write_all",
     "std::io::_eprint",          # A-STDIO
     "std::io::_print",           # A-STDIO
-    "std::iter::Iterator::any",
     "std::iter::Iterator::next",
     "std::net::SocketAddr::ip",
     "std::net::SocketAddr::is_ipv4",
@@ -75,7 +74,6 @@ TOTAL = {
     "std::path::Path::metadata",
     "std::path::Path::to_str",
     "std::path::PathBuf::into_os_string",
-    "std::slice::<impl [T]>::concat",
     "std::str::<impl std::borrow::ToOwned for str>::to_owned",
     "std::str::<impl str>::replace",
     "std::str::<impl str>::to_lowercase",
@@ -175,7 +173,9 @@ class Models:
 
         # ---------------- clone-like: result is a copy of the referent
         @reg("<std::path::PathBuf as std::clone::Clone>::clone",
-             "<std::string::String as std::clone::Clone>::clone")
+             "<std::string::String as std::clone::Clone>::clone",
+             "std::path::Path::to_path_buf",
+             "std::path::<impl std::borrow::ToOwned for std::path::Path>::to_owned")
         def clone(c):
             v = c.argv(0)
             if v[0] == "r":
@@ -200,6 +200,8 @@ class Models:
                 out[("$len",)] = c.eng.read(c.st, v[1], v[2] + ("$len",))
                 out[("$copy_of",)] = ("r", v[1], v[2], False)
             c.set_dest(out)
+            if v[0] == "r":
+                self._set_layout(c, c.st, c.dest[0], c.dest[1], self._segs_of(c, c.st, c.args[0][0]))
             return [c.st]
 
         @reg("std::boxed::Box::new")
@@ -256,16 +258,145 @@ class Models:
             c.set_dest(c.payload(c.st, 0, ("v", good), field0=True))
             return [c.st]
 
-        @reg("std::result::Result::unwrap_or_else", "std::option::Option::unwrap_or_else")
-        def unwrap_or_else(c):
-            is_opt = "Option" in c.base
+        # ---------------- Option / Result combinators (the callable is invoked: closures and crate-local fns are inlined)
+        def variant(vi, sub):
+            out = {("$discr",): ICONST(vi)}
+            for k, v in sub.items():
+                out[(("v", vi), 0) + k] = v
+            return out
+
+        def combinator(c, is_opt, on_good, on_bad):
+            """fork on the discriminant of argument 0; on_good/on_bad(state, payload) -> [(state, dest subtree)]"""
             good = 1 if is_opt else 0
             outs = []
             for (vi, s2) in c.fork_discr(0, 2):
                 if vi == good:
-                    c.set_dest(c.payload(s2, 0, ("v", good), field0=True), s2)
+                    rs = on_good(s2, c.payload(s2, 0, ("v", good), field0=True, typed=False))
                 else:
-                    c.set_dest({(): c.eng.opaque_result(("app", "closure_result", c.site, (c.argv(1),)), c.dest[2])}, s2)
+                    pl = {} if is_opt else c.payload(s2, 0, ("v", 1), field0=True, typed=False)
+                    rs = on_bad(s2, pl)
+                for (s3, sub) in rs:
+                    c.set_dest(sub, s3)
+                    outs.append(s3)
+            return outs
+
+        def call(c, i, argsubs):
+            return lambda s, pl: c.invoke(s, i, [pl] if argsubs == "payload" else [])
+
+        def wrap(vi, rs):
+            return [(s, variant(vi, sub)) for (s, sub) in rs]
+
+        @reg("std::result::Result::unwrap_or_else", "std::option::Option::unwrap_or_else")
+        def unwrap_or_else(c):
+            is_opt = "Option" in c.base
+            return combinator(c, is_opt, lambda s, pl: [(s, pl)],
+                              lambda s, pl: c.invoke(s, 1, [] if is_opt else [pl]))
+
+        @reg("std::result::Result::unwrap_or", "std::option::Option::unwrap_or")
+        def unwrap_or(c):
+            is_opt = "Option" in c.base
+            return combinator(c, is_opt, lambda s, pl: [(s, pl)], lambda s, pl: [(s, dict(c.args[1][0]))])
+
+        @reg("std::result::Result::map", "std::option::Option::map")
+        def map_(c):
+            is_opt = "Option" in c.base
+            good = 1 if is_opt else 0
+            return combinator(c, is_opt, lambda s, pl: wrap(good, c.invoke(s, 1, [pl])),
+                              lambda s, pl: [(s, variant(1 - good, pl) if not is_opt else {("$discr",): ICONST(0)})])
+
+        @reg("std::result::Result::map_err")
+        def map_err(c):
+            return combinator(c, False, lambda s, pl: [(s, variant(0, pl))], lambda s, pl: wrap(1, c.invoke(s, 1, [pl])))
+
+        @reg("std::result::Result::and_then", "std::option::Option::and_then")
+        def and_then(c):
+            is_opt = "Option" in c.base
+            return combinator(c, is_opt, lambda s, pl: c.invoke(s, 1, [pl]),
+                              lambda s, pl: [(s, variant(1, pl) if not is_opt else {("$discr",): ICONST(0)})])
+
+        @reg("std::result::Result::or_else", "std::option::Option::or_else")
+        def or_else(c):
+            is_opt = "Option" in c.base
+            good = 1 if is_opt else 0
+            return combinator(c, is_opt, lambda s, pl: [(s, variant(good, pl))],
+                              lambda s, pl: c.invoke(s, 1, [] if is_opt else [pl]))
+
+        @reg("std::option::Option::ok_or_else")
+        def ok_or_else(c):
+            return combinator(c, True, lambda s, pl: [(s, variant(0, pl))], lambda s, pl: wrap(1, c.invoke(s, 1, [])))
+
+        @reg("std::result::Result::ok")
+        def res_ok(c):
+            return combinator(c, False, lambda s, pl: [(s, variant(1, pl))], lambda s, pl: [(s, {("$discr",): ICONST(0)})])
+
+        @reg("std::result::Result::err")
+        def res_err(c):
+            return combinator(c, False, lambda s, pl: [(s, {("$discr",): ICONST(0)})], lambda s, pl: [(s, variant(1, pl))])
+
+        @reg("std::option::Option::map_or", "std::result::Result::map_or")
+        def map_or(c):
+            is_opt = "Option" in c.base
+            return combinator(c, is_opt, lambda s, pl: c.invoke(s, 2, [pl]), lambda s, pl: [(s, dict(c.args[1][0]))])
+
+        @reg("std::option::Option::map_or_else", "std::result::Result::map_or_else")
+        def map_or_else(c):
+            is_opt = "Option" in c.base
+            return combinator(c, is_opt, lambda s, pl: c.invoke(s, 2, [pl]),
+                              lambda s, pl: c.invoke(s, 1, [] if is_opt else [pl]))
+
+        @reg("std::option::Option::is_some_and", "std::result::Result::is_ok_and")
+        def is_good_and(c):
+            is_opt = "Option" in c.base
+            return combinator(c, is_opt, lambda s, pl: c.invoke(s, 1, [pl]), lambda s, pl: [(s, {(): ICONST(0)})])
+
+        @reg("std::result::Result::is_err_and")
+        def is_err_and(c):
+            return combinator(c, False, lambda s, pl: [(s, {(): ICONST(0)})], lambda s, pl: c.invoke(s, 1, [pl]))
+
+        @reg("std::option::Option::is_none_or")
+        def is_none_or(c):
+            return combinator(c, True, lambda s, pl: c.invoke(s, 1, [pl]), lambda s, pl: [(s, {(): ICONST(1)})])
+
+        @reg("std::option::Option::filter")
+        def opt_filter(c):
+            def good(s, pl):
+                # the predicate gets a reference to the payload: materialise it
+                c.eng.symctr += 1
+                tmp = ("L", c.fr.id, ("hofarg", c.bb, c.eng.symctr))
+                c.eng.write_subtree(s, tmp, (), pl, None)
+                outs = []
+                for (s3, r) in c.invoke(s, 1, [{(): ("r", tmp, (), False)}]):
+                    v = r.get(())
+                    pl3 = c.eng.subtree(s3, tmp, ())
+                    s3.store.pop(tmp, None)
+                    for (truth, s4) in c.eng.fork_bool(s3, v):
+                        outs.append((s4, variant(1, pl3) if truth else {("$discr",): ICONST(0)}))
+                return outs
+            return combinator(c, True, good, lambda s, pl: [(s, {("$discr",): ICONST(0)})])
+
+        @reg("std::option::Option::as_ref", "std::option::Option::as_mut", "std::result::Result::as_ref", "std::result::Result::as_mut")
+        def as_ref(c):
+            v = c.argv(0)
+            if v[0] != "r":
+                return None
+            is_opt = "Option" in c.base
+            mut = c.base.endswith("as_mut")
+            d = c.eng.read(c.st, v[1], v[2] + ("$discr",))
+            k = const_of(d)
+            outs = []
+            cases = [k] if k is not None else [0, 1]
+            for vi in cases:
+                s2 = c.st if vi == cases[-1] else c.st.fork()
+                if k is None:
+                    cons = [lin.le(d[1], lin.const(vi)), lin.le(lin.const(vi), d[1])]
+                    if s2.ctx.infeasible_with(cons):
+                        continue
+                    for cc in cons:
+                        s2.ctx.add(cc)
+                if is_opt and vi == 0:
+                    c.set_dest({("$discr",): ICONST(0)}, s2)
+                else:
+                    c.set_dest({("$discr",): ICONST(vi), (("v", vi), 0): ("r", v[1], v[2] + (("v", vi), 0), mut)}, s2)
                 outs.append(s2)
             return outs
 
@@ -331,10 +462,141 @@ class Models:
             c.set_dest({(): T(("app", "from_elem", c.site, (c.argv(0),))), ("$len",): I(n)})
             return [c.st]
 
+
+        # ---------------- byte-sequence layout: which segments, in which order, a byte vector was built from
+        # A Vec carries a ghost entry $layout = T(("layout", segments, producer fn)); segments are
+        #   ("seg", value, star)   bytes of `value` (star: shallow snapshot of what a reference points to)
+        #   ("byte", value)        one pushed element
+        #   ("acc", term)          unknown prefix (e.g. the loop-head value of an accumulator)
+        #   ("nested", segments, producer)  a vector built elsewhere (kept nested for rules that want the producer)
+        def layout_of(sub):
+            lv = sub.get(("$layout",))
+            if lv is not None and lv[0] == "t" and isinstance(lv[1], tuple) and lv[1] and lv[1][0] == "layout":
+                return lv[1]
+            return None
+
+        def shallow(eng, st, v):
+            if v is None or v[0] != "r" or "E" in v[2]:
+                return None
+            tgt = eng.subtree(st, v[1], v[2])
+            if len(tgt) > 64:
+                return None
+            return tuple(sorted(((k, vv) for k, vv in tgt.items() if len(k) <= 2), key=repr))
+
+        def segs_of(c, st, sub):
+            """segments denoted by a value (by-value Vec / array, or a reference to a slice / Vec / array)"""
+            lay = layout_of(sub)
+            if lay is not None:
+                return [("nested", lay[1], lay[2])]
+            v = sub.get(())
+            if v is not None and v[0] == "r" and "E" not in v[2]:
+                tsub = c.eng.subtree(st, v[1], v[2])
+                lay = layout_of(tsub)
+                if lay is not None:
+                    return [("nested", lay[1], lay[2])]
+                return [("seg", v, shallow(c.eng, st, v))]
+            if v is None:
+                return [("seg", ("agg", tuple(sorted(sub.items(), key=repr))), None)]
+            if v[0] == "t" and isinstance(v[1], tuple) and v[1] and v[1][0] in ("phi", "join", "havoc"):
+                return [("acc", v[1])]
+            return [("seg", v, None)]
+
+        def set_layout(c, st, root, path, segs):
+            term = T(("layout", tuple(segs), c.fr.body.path))
+            c.eng.write(st, root, path + ("$layout",), term, c.node)
+            if c.eng.record:
+                c.eng.layout_log.append((c.node, c.fr.id, root, path, tuple(segs)))
+
+        def cur_layout(c, st, v):
+            """segments of the vector behind &mut v so far (unknown contents become an accumulator segment)"""
+            tsub = c.eng.subtree(st, v[1], v[2])
+            lay = layout_of(tsub)
+            if lay is not None:
+                return list(lay[1])
+            ln = tsub.get(("$len",))
+            if ln is not None and const_of(ln) == 0:
+                return []
+            cur = tsub.get(("$layout",)) or tsub.get(())
+            return [("acc", cur[1] if cur is not None and cur[0] == "t" else ("unknown", v[1], v[2]))]
+
+        def add_len(c, st, v, extra):
+            n = c.eng.read(st, v[1], v[2] + ("$len",))
+            if n[0] == "i" and extra is not None and extra[0] == "i":
+                c.eng.write(st, v[1], v[2] + ("$len",), I(lin.add(n[1], extra[1])), c.node)
+            else:
+                c.eng.write(st, v[1], v[2] + ("$len",), I(lin.var(c.eng.fresh("len", (0, ISIZE_MAX)))), c.node)
+
+        def len_of_sub(c, st, sub):
+            if ("$len",) in sub:
+                return sub[("$len",)]
+            v = sub.get(())
+            if v is not None and v[0] == "r":
+                return c.eng.read(st, v[1], v[2] + ("$len",))
+            return None
+
+        self._set_layout = set_layout
+        self._segs_of = segs_of
+
+        @reg("std::slice::<impl [T]>::concat")
+        def concat(c):
+            v = c.argv(0)
+            out = {(): T(("app", "concat", c.site, (v,)))}
+            segs = None
+            total = None
+            if v[0] == "r":
+                n = const_of(c.eng.read(c.st, v[1], v[2] + ("$len",)))
+                if n is not None and n <= 64:
+                    segs = []
+                    total = lin.const(0)
+                    for i in range(n):
+                        esub = c.eng.subtree(c.st, v[1], v[2] + (("a", i),))
+                        segs.extend(segs_of(c, c.st, esub))
+                        ln = len_of_sub(c, c.st, esub)
+                        total = lin.add(total, ln[1]) if (total is not None and ln is not None and ln[0] == "i") else None
+            out[("$len",)] = I(total) if total is not None else I(lin.var(c.eng.fresh("len", (0, ISIZE_MAX))))
+            c.set_dest(out)
+            if segs is not None:
+                set_layout(c, c.st, c.dest[0], c.dest[1], segs)
+            return [c.st]
+
+        @reg("std::vec::Vec::extend_from_slice",
+             "<std::vec::Vec<T, A> as std::iter::Extend<&'a T>>::extend",
+             "<std::vec::Vec<T, A> as std::iter::Extend<T>>::extend")
+        def extend_from_slice(c):
+            v = c.argv(0)
+            if v[0] != "r":
+                return None
+            segs = cur_layout(c, c.st, v) + segs_of(c, c.st, c.args[1][0])
+            add_len(c, c.st, v, len_of_sub(c, c.st, c.args[1][0]))
+            c.eng.write_subtree(c.st, v[1], v[2] + ("E",), {(): T(("elem-of", c.argv(1)))}, c.node)
+            set_layout(c, c.st, v[1], v[2], segs)
+            c.set_dest({(): T(("unit", "()"))})
+            return [c.st]
+
+        @reg("std::vec::Vec::append")
+        def vec_append(c):
+            v, w = c.argv(0), c.argv(1)
+            if v[0] != "r" or w[0] != "r":
+                return None
+            wsub = c.eng.subtree(c.st, w[1], w[2])
+            lay = layout_of(wsub)
+            segs = cur_layout(c, c.st, v) + (list(lay[1]) if lay is not None else cur_layout(c, c.st, w))
+            add_len(c, c.st, v, wsub.get(("$len",)))
+            c.eng.write(c.st, w[1], w[2] + ("$len",), ICONST(0), c.node)
+            set_layout(c, c.st, w[1], w[2], [])
+            set_layout(c, c.st, v[1], v[2], segs)
+            c.set_dest({(): T(("unit", "()"))})
+            return [c.st]
+
         @reg("std::vec::Vec::push", "std::collections::VecDeque::push_back", "std::collections::VecDeque::push_front")
         def push(c):
             v = c.argv(0)
             if v[0] == "r":
+                if c.base == "std::vec::Vec::push":
+                    x = c.argv(1)
+                    if x[0] in ("i", "b"):
+                        # a byte pushed onto a byte vector: keep the layout
+                        set_layout(c, c.st, v[1], v[2], cur_layout(c, c.st, v) + [("byte", x)])
                 n = c.eng.read(c.st, v[1], v[2] + ("$len",))
                 c.eng.write(c.st, v[1], v[2] + ("$len",), I(lin.add(n[1], lin.const(1))), c.node)
                 c.eng.write_subtree(c.st, v[1], v[2] + ("E",), c.args[1][0], c.node)
@@ -438,6 +700,33 @@ class Models:
             c.set_dest(out)
             return [c.st]
 
+        @reg("std::ops::RangeInclusive::contains", "std::ops::Range::contains")
+        def range_contains(c):
+            r, x = c.argv(0), c.argv(1)
+            if r[0] != "r" or x[0] != "r":
+                return None
+            lo = c.eng.read(c.st, r[1], r[2] + (0,))
+            hi = c.eng.read(c.st, r[1], r[2] + (1,))
+            xv = c.eng.read(c.st, x[1], x[2])
+            if lo[0] != "i" or hi[0] != "i" or xv[0] != "i":
+                return None
+            incl = "Inclusive" in c.base
+            for bnd in (lo, hi):
+                if lin.is_const(bnd[1]):
+                    c.eng.note_const(xv[1], bnd[1][0])
+            inside = [lin.le(lo[1], xv[1]), lin.le(xv[1], hi[1]) if incl else lin.lt(xv[1], hi[1])]
+            cases = [(1, inside), (0, [lin.lt(xv[1], lo[1])]), (0, [lin.lt(hi[1], xv[1]) if incl else lin.le(hi[1], xv[1])])]
+            outs = []
+            for i, (res, cons) in enumerate(cases):
+                s2 = c.st.fork() if i < len(cases) - 1 else c.st
+                if s2.ctx.infeasible_with(cons):
+                    continue
+                for cc in cons:
+                    s2.ctx.add(cc)
+                c.set_dest({(): ICONST(res)}, s2)
+                outs.append(s2)
+            return outs
+
         # ---------------- iterators
         @reg("core::slice::<impl [T]>::iter", "core::slice::<impl [T]>::iter_mut",
              "<&'a std::vec::Vec<T, A> as std::iter::IntoIterator>::into_iter",
@@ -475,6 +764,98 @@ class Models:
             c.set_dest({("$discr",): ICONST(1), (("v", 1), 0): elem}, s_some)
             outs.append(s_some)
             return outs
+
+        # ---------------- closure-taking adapters: the closure is executed once, standing for an arbitrary iteration
+        def iter_elem(c, st):
+            """element handed to the callable: like `next`, a fresh object of the iterated container / a value of the range"""
+            sub = c.args[0][0]
+            v = sub.get(())
+            ti0 = c.args[0][1]
+            if v is not None and v[0] == "r" and "E" not in v[2]:
+                # adapters taking `&mut self`: look at the iterator behind the reference
+                sub = c.eng.subtree(st, v[1], v[2])
+                ti0 = c.eng.prog.peel_refs(ti0) if ti0 is not None else None
+            over = sub.get(("$over",))
+            c.eng.symctr += 1
+            if over is not None and over[0] == "r":
+                return {(): ("r", ("P", ("elem", c.site, c.eng.symctr, (over[1], over[2]))), (), bool(over[3]))}
+            lo, hi = sub.get((0,)), sub.get((1,))
+            ts = c.eng.prog.types[ti0]["s"] if ti0 is not None else ""
+            if lo is not None and hi is not None and lo[0] == "i" and hi[0] == "i" and _range_kind(ts) == "Range":
+                i = c.eng.named(("iter-index", c.site), None)
+                st.ctx.add(lin.le(lo[1], lin.var(i)))
+                st.ctx.add(lin.lt(lin.var(i), hi[1]))
+                return {(): I(lin.var(i))}
+            return {(): T(("iter-elem", c.site, c.eng.symctr))}
+
+        def split_discr(c, s, rsub, nvals=2):
+            """[(value, state)] for the feasible values of the discriminant of a result subtree"""
+            d = rsub.get(("$discr",))
+            if d is None:
+                base = rsub.get(())
+                d = c.eng.project(base[1], ("$discr",), None) if base is not None and base[0] == "t" else I(lin.var(c.eng.fresh("discr", (0, 1))))
+            k = const_of(d)
+            if k is not None:
+                return [(k, s, d)]
+            outs = []
+            for vi in range(nvals):
+                s2 = s.fork() if vi < nvals - 1 else s
+                cons = [lin.le(d[1], lin.const(vi)), lin.le(lin.const(vi), d[1])]
+                if s2.ctx.infeasible_with(cons):
+                    continue
+                for cc in cons:
+                    s2.ctx.add(cc)
+                outs.append((vi, s2, d))
+            return outs
+
+        @reg("std::iter::Iterator::for_each", "std::iter::Iterator::try_for_each", "std::iter::Iterator::any", "std::iter::Iterator::all")
+        def iter_adapter(c):
+            which = c.base.rsplit("::", 1)[-1]
+            eng = c.eng
+            loop_id, exit_state, outs = eng.summarised_iteration(c.fr, c.bb, c.st, c.t.get("t"), c.args[1][0], c.args[1][1],
+                                                                 lambda s: [iter_elem(c, s)], adapter=which)
+            res = []
+            if which == "for_each":
+                for (s, rsub) in outs:
+                    eng.iteration_continues(loop_id, s, exit_state)
+                c.set_dest({(): T(("unit", "()"))}, exit_state)
+                return [exit_state]
+            if which in ("any", "all"):
+                stop = (which == "any")
+                # exhausted without a deciding element
+                c.mark(exit_state, 0)
+                c.set_dest({(): ICONST(0 if stop else 1)}, exit_state)
+                res.append(exit_state)
+                for (s, rsub) in outs:
+                    for (truth, s2) in eng.fork_bool(s, rsub.get(())):
+                        if truth == stop:
+                            c.mark(s2, 1)
+                            c.set_dest({(): ICONST(1 if stop else 0)}, s2)
+                            res.append(s2)
+                        else:
+                            eng.iteration_continues(loop_id, s2, exit_state)
+                return res
+            # try_for_each: R = Result<(), E> / Option<()>: a failing call ends the iteration with its residual
+            ds = eng.prog.types[c.dest[2]]["s"] if c.dest[2] is not None else ""
+            is_opt = "option::Option" in ds
+            good = 1 if is_opt else 0
+            c.set_dest({("$discr",): ICONST(good)}, exit_state)
+            res.append(exit_state)
+            for (s, rsub) in outs:
+                for (vi, s2, d) in split_discr(c, s, rsub):
+                    if vi == good:
+                        eng.iteration_continues(loop_id, s2, exit_state)
+                        continue
+                    if eng.record and s2.aids and c.t.get("t") is not None:
+                        # the edge from the callable's return to the continuation is taken by failing calls only
+                        frm = eng.arg_proj[s2.aids[0]]
+                        if not lin.is_const(d[1]):
+                            eng.edge_conds.setdefault((frm, (c.fr.id, c.t["t"])), []).append(("eq", d[1], vi))
+                    out = dict(rsub)
+                    out[("$discr",)] = ICONST(vi)
+                    c.set_dest(out, s2)
+                    res.append(s2)
+            return res
 
         @reg("<std::slice::Iter<'a, T> as std::iter::Iterator>::position")
         def position(c):
@@ -699,6 +1080,15 @@ class Models:
             c.set_dest({(): ("r", ("P", ("app", "map_value", c.site, (c.argv(0), c.argv(1)))), (), False)})
             return [c.st]
 
+        @reg("std::collections::HashMap::get", "std::collections::HashMap::get_mut")
+        def map_get(c):
+            mut = c.base.endswith("get_mut")
+            s2 = c.st.fork()
+            c.set_dest({("$discr",): ICONST(0)}, s2)
+            c.set_dest({("$discr",): ICONST(1),
+                        (("v", 1), 0): ("r", ("P", ("app", "map_value", c.site, (c.argv(0), c.argv(1)))), (), mut)})
+            return [s2, c.st]
+
 
 def norm_mod(e, bits):
     m = 1 << bits
@@ -774,7 +1164,11 @@ class Call:
             outs.append((vi, s2))
         return outs
 
-    def payload(self, st, i, variant, field0=False):
+    def invoke(self, st, i, arg_subs):
+        """call the callable passed as argument i -> [(state, result subtree)]"""
+        return self.eng.invoke_callable(self.fr, self.bb, st, self.t.get("t"), self.args[i][0], self.args[i][1], arg_subs)
+
+    def payload(self, st, i, variant, field0=False, typed=True):
         """subtree under variant payload of enum argument i. With field0: the single field's subtree."""
         sub = self.args[i][0]
         pre = (variant,) + ((0,) if field0 else ())
@@ -784,7 +1178,7 @@ class Call:
             base = sub.get(())
             if base is not None and base[0] == "t":
                 ti = None
-                if field0:
+                if field0 and typed:
                     ti = self.dest[2]
                 out = {(): self.eng.project(base[1], pre, ti)}
             else:
